@@ -11,6 +11,7 @@ pub mod c15;
 pub const REPLAY: &[(&str, fn(&mut vsrc::ReplaySrc))] = &[
     ("c15_poa_fields", |s| c15::poa_fields(s)),
     ("c15_genesis_fields", |s| c15::genesis_fields(s)),
+    ("c15_try_from_executed", |s| c15::try_from_executed_preserves_header(s)),
 ];
 
 pub fn noop() {}
